@@ -161,10 +161,10 @@ Proof. exact framing_exact_request. Qed.
 Print Assumptions framing_exact.
 Definition ex_raw_hdr : list N :=   (* lower/upper case names, unquoted and quoted values, an extra header, a Content-Type parameter *)
   [99;111;110;116;101;110;116;45;100;105;115;112;111;115;105;116;105;111;110;58;102;111;114;109;45;100;97;116;97;59;78;65;77;69;61;97;59;70;105;108;101;78;97;109;101;61;34;98;92;34;99;34;13;10;88;45;67;117;115;116;111;109;58;32;113;13;10;67;79;78;84;69;78;84;45;84;89;80;69;58;32;84;101;120;116;47;80;108;97;105;110;59;32;99;104;97;114;115;101;116;61;120;13;10;13;10].
-Definition ex_raw : rawpart := mkraw ex_raw_hdr (mkfile [97] [98;34;99] [116;101;120;116;47;112;108;97;105;110] []) [13;10;45;45;13;13;10;45;45;107].
+Definition ex_raw : rawpart := mkraw ex_raw_hdr (mkfile [97] [98;34;99] [116;101;120;116;47;112;108;97;105;110] []) [13;10;45;45;13;13;10;45;45;106].
 Example framing_nonvacuous : raw_ok [107] ex_raw /\
   request_multipart (mklim 100 1000) ex_ct (length (encode_raw [107] [ex_raw])) (map (fun c => [c]) (encode_raw [107] [ex_raw]))
-  = RReady [mkfile [97] [98;34;99] [116;101;120;116;47;112;108;97;105;110] (rev [13;10;45;45;13;13;10;45;45;107])].
+  = RReady [mkfile [97] [98;34;99] [116;101;120;116;47;112;108;97;105;110] (rev [13;10;45;45;13;13;10;45;45;106])].
 Proof.
   split; [|vm_compute; reflexivity].
   split; [exists (removelast ex_raw_hdr); split; vm_compute; reflexivity|].
